@@ -38,10 +38,27 @@
       encoding [le_bytes 8] of their values, numbered from [base]; [wf_state] (Proofs/
       RegisterHeap.v): the handed-out addresses are pairwise distinct and inside the heap;
     - [origin], [allocfn], [oblig_fresh] (Lib/RegFresh.v): the summary tools/go2coq extracts for
-      the functions that build these results and the obligation evaluated on it in every run. *)
+      the functions that build these results and the obligation evaluated on it in every run;
+    - the logic around the accessors (Model/RegistersDec.v): [calc_go raw size tab] = the exported
+      [CalculateRegisterFields] on ANY table ([None] = it panics; else the fields and whether the
+      result is nil), [offsets_sorted]; [fields_spec_from raw size base tab] (Proofs/
+      RegistersDec.v): field [i] = (name, offset, next offset - offset, that many bits of [raw]
+      from bit [offset - base] on);
+      [read_seq layout img] = a chain of little-endian reads that stops at the first read that
+      does not fit (values read so far, the failing slot with its [read_err]); [parse_layout] =
+      the 21 reads of [tools.ParseTXTRegs] in source order, [parse_txt] = [read_seq parse_layout];
+      [all_tools_slots] = these and the reads of [ReadACMStatus], [ReadACMPolicyStatusRaw],
+      [ReadBootStatusRaw]; [fitting_prefix], [first_unfit];
+      [decoder_pairs], [raw_pairs], [key_slots]: which fields of the two TXT decoders are the
+      same field; [oblig_pair], [oblig_raw_pair]: the obligations evaluated on the generated
+      accessors in every run; [slot_inside slot id k]: the slot of pkg/tools occupies bytes
+      [k ..] of the register [id] of pkg/registers;
+      [msr_layout] = the 8 supported MSRs (ID, MSR number) in table order, [read_msrs rd] = model
+      of [ReadMSRRegisters] with a reader [rd : MSR number -> option value] (collection, IDs that
+      failed); [find_reg id regs] = [Registers.Find]. *)
 From Coq Require Import NArith String List.
-From CSS Require Import Lib.SymBits Lib.RegTypes Lib.RegOblig Lib.RegFresh Model.Registers Model.RegisterHeap.
-From CSS Require Import Proofs.SymBits Proofs.Registers Proofs.RegisterHeap Proofs.RegistersRead.
+From CSS Require Import Lib.SymBits Lib.RegTypes Lib.RegOblig Lib.RegFresh Model.Registers Model.RegisterHeap Model.RegistersDec.
+From CSS Require Import Proofs.SymBits Proofs.Registers Proofs.RegisterHeap Proofs.RegistersRead Proofs.RegistersDec.
 Import ListNotations.
 Open Scope N_scope.
 
@@ -369,3 +386,206 @@ Theorem C04_key_field_covers_register_refuted :
     ~ (exists n bytes a, ob = [(n, 0, 256, bytes, a)]).
 Proof. exact key_field_covers_register_refuted. Qed.
 Print Assumptions C04_key_field_covers_register_refuted.
+
+(** * 7. [CalculateRegisterFields] as the exported function it is: ANY table *)
+
+(** The call panics iff some offset is smaller than the one before it — nothing else makes it
+    panic: not an empty table, not a register size of 0 or above 64, not an offset above the
+    size (the uint8 subtraction wraps instead). *)
+Theorem C04_calc_panics_iff : forall raw size tab,
+  calc_go raw size tab = None <-> offsets_sorted 0 tab = false.
+Proof. exact calc_go_panics_iff. Qed.
+Print Assumptions C04_calc_panics_iff.
+
+(** On a sorted table it returns what [calc_fields] (sections 3, 5) computes; nil exactly for
+    the empty table. *)
+Theorem C04_calc_sorted : forall raw size tab, offsets_sorted 0 tab = true ->
+  calc_go raw size tab = Some (calc_fields raw size tab, match tab with [] => true | _ => false end).
+Proof. exact calc_go_sorted. Qed.
+Print Assumptions C04_calc_sorted.
+
+(** Register tables: no panic, not nil, the partition into bit slices of [C04_fields_exact]. *)
+Theorem C04_calc_register_table : forall t raw, table_wf t = true ->
+  calc_go raw (t_bits t) (t_fields t) = Some (fields_spec raw (t_bits t) (t_fields t), false).
+Proof. exact calc_go_register_table. Qed.
+Print Assumptions C04_calc_register_table.
+
+(** Every sorted table that stays inside the register (repeated offsets, first offset above 0,
+    sizes up to 255), every uint64: sizes are the differences of consecutive offsets and the
+    values are counted from the FIRST declared offset. *)
+Theorem C04_calc_sorted_exact : forall raw size n o t,
+  raw < 2 ^ 64 -> size < 256 -> offsets_sorted o t = true ->
+  forallb (fun f : string * N => snd f <=? size) ((n, o) :: t) = true ->
+  calc_go raw size ((n, o) :: t) = Some (fields_spec_from raw size o ((n, o) :: t), false).
+Proof. exact calc_sorted_exact. Qed.
+Print Assumptions C04_calc_sorted_exact.
+
+Example C04_calc_sorted_exact_applies :
+  calc_go 0xF0F0 200 [("a"%string, 4); ("b"%string, 8); ("c"%string, 8); ("d"%string, 100)] =
+  Some ([("a"%string, 4, 4, 0); ("b"%string, 8, 0, 0); ("c"%string, 8, 92, 0xF0F); ("d"%string, 100, 100, 0)], false).
+Proof. exact calc_sorted_exact_applies. Qed.
+
+(** * 8. The second TXT decoder (pkg/tools) and its agreement with pkg/registers *)
+
+(** A chain of reads hands back the values of the longest prefix that fits, each the little-
+    endian value of its own bytes ... *)
+Theorem C04_tools_chain_values : forall layout img,
+  fst (read_seq layout img) =
+  map (fun e => (e_id e, le_at img (e_off e) (e_len e))) (fitting_prefix img layout).
+Proof. exact read_seq_fst. Qed.
+Print Assumptions C04_tools_chain_values.
+
+(** ... and fails at the FIRST read that does not fit, with [io.EOF] when the image ends at or
+    before that read's offset and [io.ErrUnexpectedEOF] inside it. *)
+Theorem C04_tools_chain_stops_at_first : forall layout img s k, snd (read_seq layout img) = Some (s, k) ->
+  exists off n pre post, layout = pre ++ (s, off, n) :: post /\
+    (length img < off + n)%nat /\ k = read_err_of img off /\
+    map fst (fst (read_seq layout img)) = ids pre /\ forall e, In e pre -> fits img e = true.
+Proof. exact read_seq_stops_at_first. Qed.
+Print Assumptions C04_tools_chain_stops_at_first.
+
+Theorem C04_tools_chain_ok : forall layout img,
+  (snd (read_seq layout img) = None <-> forall e, In e layout -> fits img e = true) /\
+  (snd (read_seq layout img) = None -> map fst (fst (read_seq layout img)) = ids layout).
+Proof. exact (fun layout img => conj (read_seq_ok_iff layout img) (read_seq_ok_all layout img)). Qed.
+Print Assumptions C04_tools_chain_ok.
+
+(** [ParseTXTRegs] reports success exactly from 0x8f8 = 2296 bytes on. *)
+Theorem C04_parse_txt_ok_iff : forall img, snd (parse_txt img) = None <-> (2296 <= length img)%nat.
+Proof. exact parse_txt_ok_iff. Qed.
+Print Assumptions C04_parse_txt_ok_iff.
+
+(** "The two decoders agree on every field they both report", byte level: whenever a decoder
+    of pkg/tools (any chain [L] of its slots) reports a slot and [ReadTXTRegisters] returns the
+    register the slot lies in, on ANY image, the slot is bytes [k .. k+sn) of the register. *)
+Theorem C04_slot_in_register : forall slot id k, slot_inside slot id k = true ->
+  exists soff sn, find_entry slot all_tools_slots = Some (soff, sn) /\
+  forall L img v w, incl L all_tools_slots -> (forall b, In b img -> b < 256) ->
+    In (slot, v) (fst (read_seq L img)) -> In (id, w) (fst (read_txt img)) ->
+    v = (w / 256 ^ N.of_nat k) mod 256 ^ N.of_nat sn.
+Proof. exact slot_in_register. Qed.
+Print Assumptions C04_slot_in_register.
+
+(** The hypothesis holds for the 15 raw slots and the four quarters of the key. *)
+Theorem C04_slots_inside :
+  forallb (fun p : string * string * nat * string => let '(s, id, k, _) := p in slot_inside s id k) raw_pairs = true /\
+  forallb (fun p : string * nat => slot_inside (fst p) "TXT.PUBLIC.KEY" (snd p)) key_slots = true.
+Proof. exact (conj raw_slots_inside key_slots_inside). Qed.
+Print Assumptions C04_slots_inside.
+
+Theorem C04_key_quarters_agree : forall slot k, In (slot, k) key_slots ->
+  forall L img v w, incl L all_tools_slots -> (forall b, In b img -> b < 256) ->
+    In (slot, v) (fst (read_seq L img)) -> In ("TXT.PUBLIC.KEY"%string, w) (fst (read_txt img)) ->
+    v = (w / 256 ^ N.of_nat k) mod 256 ^ 8.
+Proof. exact key_quarters_agree. Qed.
+Print Assumptions C04_key_quarters_agree.
+
+(** Field level.  A green pair obligation (one per entry of [decoder_pairs], evaluated on the
+    accessors translated from the source in every run): both accessors exist, and on EVERY image
+    on which the tools decoder reports the slot and [ReadTXTRegisters] returns the register the
+    two decoded fields are equal — also where the two decoders read different widths
+    (ACM_STATUS: eight bytes in pkg/tools, four in pkg/registers). *)
+Theorem C04_decoder_pair_sound : forall specs accs ta ra slot id,
+  snd (fst (oblig_pair specs accs (ta, ra, slot, id))) = true ->
+  exists at_ ar, find_accessor ta accs = Some at_ /\ find_accessor ra accs = Some ar /\
+  forall L img v w, incl L all_tools_slots -> (forall b, In b img -> b < 256) ->
+    In (slot, v) (fst (read_seq L img)) -> In (id, w) (fst (read_txt img)) ->
+    got_at (a_val at_) v = got_at (a_val ar) w.
+Proof. exact pair_obligation_sound. Qed.
+Print Assumptions C04_decoder_pair_sound.
+
+(** A green raw-pair obligation (one per entry of [raw_pairs]): what pkg/tools reports raw is
+    what the accessor of pkg/registers returns for the register. *)
+Theorem C04_decoder_raw_pair_sound : forall specs accs slot id k ra,
+  snd (fst (oblig_raw_pair specs accs (slot, id, k, ra))) = true ->
+  exists ar, find_accessor ra accs = Some ar /\
+  forall L img v w, incl L all_tools_slots -> (forall b, In b img -> b < 256) ->
+    In (slot, v) (fst (read_seq L img)) -> In (id, w) (fst (read_txt img)) ->
+    got_at (a_val ar) w = v.
+Proof. exact raw_pair_obligation_sound. Qed.
+Print Assumptions C04_decoder_raw_pair_sound.
+
+(** the premises are met: accessors as the translator emits them, an image both decoders read *)
+Example C04_decoder_pair_sound_applies :
+  pair_ok ex_specs ex_accs ("tools.ParseTXTRegs.TxtReset", "registers.TXTErrorStatus.Reset", "Ests", "TXT.ESTS")%string = true /\
+  raw_pair_ok ex_specs ex_accs ("Did", "TXT.DIDVID", 2%nat, "registers.TXTDeviceID.DeviceID")%string = true /\
+  In ("Ests"%string, 3) (fst (parse_txt ex_image)) /\ In ("TXT.ESTS"%string, 3) (fst (read_txt ex_image)) /\
+  In ("Did"%string, 771) (fst (parse_txt ex_image)) /\ snd (parse_txt ex_image) = None.
+Proof. exact pair_sound_applies. Qed.
+
+(** every decoder of pkg/tools is such a chain [L] *)
+Theorem C04_tools_decoders_are_chains : forall which lay flds,
+  tools_decoder which = Some (lay, flds) -> incl lay all_tools_slots.
+Proof. exact tools_decoders_incl. Qed.
+Print Assumptions C04_tools_decoders_are_chains.
+
+(** the [CTools] cases evaluate [read_seq] on the image the case describes *)
+Theorem C04_tools_cases_run_the_model : forall layout len bytes,
+  CSS.Model.RegistersCases.read_seq_sparse layout len bytes =
+  read_seq layout (CSS.Model.RegistersCases.expand (N.to_nat len) bytes).
+Proof. exact read_seq_sparse_expand. Qed.
+Print Assumptions C04_tools_cases_run_the_model.
+
+(** * 9. [ReadMSRRegisters] *)
+
+(** The clause for MSRs: every supported MSR whose read succeeds is in the result, once, with
+    the value read from ITS MSR number, whatever happens to the other reads; one whose read
+    fails is in the error and not in the result. *)
+Theorem C04_read_msrs_register : forall rd id a, In (id, a) msr_layout ->
+  match rd a with
+  | Some v => In (id, v) (fst (read_msrs rd)) /\ (forall w, In (id, w) (fst (read_msrs rd)) -> w = v) /\
+              ~ In id (snd (read_msrs rd))
+  | None => In id (snd (read_msrs rd)) /\ forall w, ~ In (id, w) (fst (read_msrs rd))
+  end.
+Proof. exact read_msrs_register. Qed.
+Print Assumptions C04_read_msrs_register.
+
+(** For every table: what is in the collection, what is in the error, in which order. *)
+Theorem C04_read_msrs_in : forall layout rd id v,
+  In (id, v) (fst (read_msrs_from layout rd)) <-> exists a, In (id, a) layout /\ rd a = Some v.
+Proof. exact read_msrs_in. Qed.
+Print Assumptions C04_read_msrs_in.
+
+Theorem C04_read_msrs_errors : forall layout rd id,
+  In id (snd (read_msrs_from layout rd)) <-> exists a, In (id, a) layout /\ rd a = None.
+Proof. exact read_msrs_errors. Qed.
+Print Assumptions C04_read_msrs_errors.
+
+Theorem C04_read_msrs_order : forall layout rd,
+  map fst (fst (read_msrs_from layout rd)) = map fst (filter (fun e => match rd (snd e) with Some _ => true | None => false end) layout) /\
+  snd (read_msrs_from layout rd) = map fst (filter (fun e => match rd (snd e) with Some _ => false | None => true end) layout) /\
+  (length (fst (read_msrs_from layout rd)) + length (snd (read_msrs_from layout rd)) = length layout)%nat.
+Proof. exact read_msrs_order. Qed.
+Print Assumptions C04_read_msrs_order.
+
+Theorem C04_read_msrs_error_nil : forall rd,
+  snd (read_msrs rd) = [] <-> forall id a, In (id, a) msr_layout -> rd a <> None.
+Proof. exact read_msrs_error_nil. Qed.
+Print Assumptions C04_read_msrs_error_nil.
+
+(** the 8 supported MSRs: distinct IDs, distinct MSR numbers *)
+Theorem C04_msr_layout_wf : NoDup (map fst msr_layout) /\ NoDup (map snd msr_layout).
+Proof. exact (conj msr_ids_nodup msr_addrs_nodup). Qed.
+Print Assumptions C04_msr_layout_wf.
+
+(** * 10. [Registers.Find] *)
+
+(** the FIRST register with that ID *)
+Theorem C04_find_first : forall regs id v,
+  find_reg id regs = Some v <->
+  exists pre post, regs = pre ++ (id, v) :: post /\ ~ In id (map fst pre).
+Proof. exact find_reg_first. Qed.
+Print Assumptions C04_find_first.
+
+Theorem C04_find_none : forall regs id, find_reg id regs = None <-> ~ In id (map fst regs).
+Proof. exact find_reg_none. Qed.
+Print Assumptions C04_find_none.
+
+(** [Find] (hence every [FindTXT...]) on what [ReadTXTRegisters] returned for ANY image: the
+    little-endian value at the register's offset when the register lies inside the image, nil
+    otherwise. *)
+Theorem C04_find_in_read_txt : forall img id off n, In (id, off, n) txt_layout ->
+  find_reg id (fst (read_txt img)) =
+  if Nat.leb (off + n) (length img) then Some (le_at img off n) else None.
+Proof. exact find_in_read_txt. Qed.
+Print Assumptions C04_find_in_read_txt.
